@@ -37,6 +37,8 @@ type Prog struct {
 	derivedState   int
 	derivedTmpl    map[derivedKey]*Sym
 	derivedVirtual map[*types.Named]*Sym
+	entryParamDone bool
+	entryParamMap  map[*ssa.Parameter]entryParamInfo
 }
 
 // product packages per module (DESIGN.md §1). A missing one is a hard failure.
